@@ -8,6 +8,7 @@ import (
 	"sort"
 	"strings"
 	"sync"
+	"sync/atomic"
 	"time"
 
 	"github.com/honeycombio/refinery/generics"
@@ -269,10 +270,11 @@ func c32RunRace(in c32Input) (Case, error) {
 		start := make(chan struct{})
 		var wg sync.WaitGroup
 		wg.Add(2)
+		var added atomic.Bool
 		go func() {
 			defer wg.Done()
 			<-start
-			for j := 0; j < round%7; j++ {
+			for j := 0; j < round%5; j++ {
 				runtime.Gosched()
 			}
 			if set != nil {
@@ -280,11 +282,14 @@ func c32RunRace(in c32Input) (Case, error) {
 			} else {
 				mp.Set(k, 7)
 			}
+			added.Store(true)
 		}()
 		go func() {
+			// query continuously until the re-add has completed, so that the re-add falls inside
+			// (or right next to) a query whatever the scheduling
 			defer wg.Done()
 			<-start
-			for j := 0; j < 6; j++ {
+			for j := 0; j < 4 || (!added.Load() && j < 100000); j++ {
 				if set != nil {
 					set.Contains(k)
 				} else {
@@ -329,5 +334,5 @@ func c32RunRace(in c32Input) (Case, error) {
 	return Case{Coq: coq, Key: fmt.Sprintf("race|%s|%d|%d", in.Kind, in.TTL, in.Rounds), Nontriv: true,
 		Tags: []string{"kind:" + in.Kind, "concurrent-readd-vs-query"},
 		Summary: map[string]any{"kind": in.Kind, "ttl": in.TTL, "rounds": in.Rounds, "first_deviating_round": bad,
-			"history": []string{"Put k", "Advance ttl+1", "Put k  ||  6 x Get k   (concurrently)", "Get k -> " + obs[3], "Keys -> " + obs[4], "Len -> " + obs[5]}}}, nil
+			"history": []string{"Put k", "Advance ttl+1", "Put k  ||  Get k repeatedly until the Put has completed   (concurrently)", "Get k -> " + obs[3], "Keys -> " + obs[4], "Len -> " + obs[5]}}}, nil
 }
